@@ -50,6 +50,8 @@ class RealBreaker:
         shape = (cfg["thr"] + cfg["W"] + cfg["R"] + len(cfg["trip"])) % 4
         trip = [ErrorClass[k] for k in sorted(cfg["trip"])]
         trip_on = [set(trip), frozenset(trip), list(trip), tuple(reversed(trip))][shape]
+        if sorted(cfg["trip"]) == ["SERVER_ERROR", "TRANSIENT"]:
+            trip_on = None            # the documented default
         cthr = {ErrorClass[k]: n for k, n in cfg["cthr"].items() if n > 0}
 
         def whole(x):
@@ -92,7 +94,8 @@ class RealBreaker:
         other = getattr(self, "other", None)
         if other is None:
             other = self.other = type(self.b)(failure_threshold=2, window_s=1e6, recovery_timeout_s=1e-9,
-                                             trip_on=set(self.EC), clock=lambda: 1e9 + self.now)
+                                             class_thresholds={self.EC.RATE_LIMIT: 2, self.EC.AUTH: 2},
+                                             clock=lambda: 1e9 + self.now)       # default trip_on
         other.record_failure(self.EC.TRANSIENT)
         other.allow()
         other.record_success()
@@ -205,6 +208,8 @@ def random_history(rng: random.Random, length: int, fine: bool = False) -> dict:
     R = rng.choice([1, 2, 3, 4, 7, 16, 40])
     thr = rng.choice([1, 2, 2, 3, 3, 4, 5])
     trip = [c for c in ALL_CLASSES if rng.random() < 0.35]
+    if rng.random() < 0.2:
+        trip = ["SERVER_ERROR", "TRANSIENT"]          # the default trip_on (passed as None)
     cthr = {c: 0 for c in ALL_CLASSES}
     for c in rng.sample(ALL_CLASSES, rng.choice([0, 0, 1, 2])):
         cthr[c] = rng.choice([1, 2, 3])
@@ -238,6 +243,19 @@ def random_history(rng: random.Random, length: int, fine: bool = False) -> dict:
                     evs.append(rb.do("allow", "-", t))
             t += rng.choice([0, 0, 1, 1, W - 1, W])
         return {"cfg": out_cfg, "ev": evs[:length + 4]}
+    if counted and not fine and rng.random() < 0.25:
+        # half-open stress: open, wait, then many admissions / cancels / stray records at one instant
+        k0 = rng.choice(counted)
+        while rb._state() != "open" and len(evs) < length:
+            evs.append(rb.do("fail", k0, t))
+        t += R
+        for _ in range(12):
+            x = rng.random()
+            op = "allow" if x < 0.5 else "cancel" if x < 0.85 else rng.choice(["ok", "fail"])
+            evs.append(rb.do(op, k0 if op == "fail" else "-", t))
+            if rng.random() < 0.15:
+                t += rng.choice([0, 1, R])
+        return {"cfg": out_cfg, "ev": evs}
     for _ in range(length):
         # clock advance: favour the boundaries of both windows
         if opened_at is not None and rng.random() < 0.5:
